@@ -996,6 +996,14 @@ fn parse_elisp_escape<'de, R: Read<'de>>(
                 decode_elisp_octal_escape(read, ch)
             });
         }
+        // A backslash before a non-ASCII character stands for that character:
+        // take all of its bytes, so that the escape cannot glue bytes of
+        // different (ill-formed) sequences into a character nobody wrote.
+        _ if ch > 127 => {
+            let c = decode_utf8_sequence(read, &mut Vec::new(), ch)?;
+            scratch.extend_from_slice(c.encode_utf8(&mut [0_u8; 4]).as_bytes());
+            return Ok(ElispEscape::Multibyte);
+        }
         _ => scratch.push(ch),
     }
     Ok(ElispEscape::Indeterminate)
